@@ -138,6 +138,12 @@ def taylorLoad {γ} : List (Int × Nat × γ) → List (Int × Nat × γ)
   | [] => []
   | x :: r => insertByKey x (taylorLoad r)
 
+/-- what `loadhdf5` returns.  Older source: the datasets in name order.  Source with the `order` attribute
+    (`attrs['order'] = position in coefflist`, restored by sorting on it): the saved order; sorting the name-ordered
+    entries by their saved position is modelled as the identity on the saved list (checked against h5py by the harness). -/
+def taylorLoadSrc {γ} (orderRestored : Bool) (cl : List (Int × Nat × γ)) : List (Int × Nat × γ) :=
+  if orderRestored then cl else taylorLoad cl
+
 /-- `addhdf5` can only create each dataset name once -/
 def taylorSaveOk {γ} (cl : List (Int × Nat × γ)) : Bool :=
   let keys := cl.map fun x => coeffKey x.1 x.2.1
@@ -165,7 +171,7 @@ def outputs {V I O} (step : Obj V → I → Obj V × O) : Obj V → List I → L
   `hsplit | <row> | <splits>`    → listlist
   `vtk | k1 ; k2 ; …`  (each key `a/b/c/d`, lists comma separated) → `none` | `rows=<listlist> splits=<list> back=<0/1>`
   `ps | i,j,R..,/dx.. ; …`       → handled as int payloads: `ok ij=<ll> R=<ll> dx=<ll> back=<0/1>` | `err`
-  `taylor | n.l n.l …`           → `<0/1 save ok> <keys in load order>` -/
+  `taylor | <0/1 order attribute> | n:l n:l …`  → `<0/1 save ok> <keys in load order>` -/
 
 def showLL (l : List (List Int)) : String := showListList l
 
@@ -236,7 +242,7 @@ def handle (line : String) : String :=
         let back := if array2psList ij R dx = l then "1" else "0"
         s!"ok ij={showLL ij} R={showLL R} dx={showLL dx} back={back}"
     | none => "parse-error"
-  | ["taylor", ks] =>
+  | ["taylor", md, ks] =>
     let parsed := (toks ks).mapM fun t =>
       match t.splitOn ":" with
       | [n, l] => do some ((← parseInt? n), (← parseNat? l), ())
@@ -244,7 +250,7 @@ def handle (line : String) : String :=
     match parsed with
     | some cl =>
       let ok := if taylorSaveOk cl then "1" else "0"
-      s!"{ok} " ++ " ".intercalate ((taylorLoad cl).map fun x => s!"{x.1}:{x.2.1}")
+      s!"{ok} " ++ " ".intercalate ((taylorLoadSrc (md = "1") cl).map fun x => s!"{x.1}:{x.2.1}")
     | none => "parse-error"
   | _ => "parse-error"
 
